@@ -8,6 +8,7 @@ package main
 // gRPC queriers.
 
 import (
+	"encoding/base64"
 	"flag"
 	"time"
 	"fmt"
@@ -17,6 +18,7 @@ import (
 
 	sdkmath "cosmossdk.io/math"
 	dbm "github.com/cometbft/cometbft-db"
+	"github.com/cosmos/cosmos-sdk/crypto/keys/ed25519"
 	sdk "github.com/cosmos/cosmos-sdk/types"
 	sdkvesting "github.com/cosmos/cosmos-sdk/x/auth/vesting/types"
 	banktypes "github.com/cosmos/cosmos-sdk/x/bank/types"
@@ -29,6 +31,7 @@ import (
 	"github.com/ethereum/go-ethereum/common"
 	ethtypes "github.com/ethereum/go-ethereum/core/types"
 
+	stakingprecompile "github.com/haqq-network/haqq/precompiles/staking"
 	"github.com/haqq-network/haqq/utils"
 	liquidvestingtypes "github.com/haqq-network/haqq/x/liquidvesting/types"
 	vestingtypes "github.com/haqq-network/haqq/x/vesting/types"
@@ -62,7 +65,7 @@ func pceqBuild(seed int64, kind string) *pceqState {
 	n := NewNode(w, dbm.NewMemDB())
 	ew := &EvmWorld{N: n, Roles: map[string]Key{}}
 	signer := "a1"
-	if kind == "operator" {
+	if kind == "operator" || kind == "operatorWd" {
 		signer = "v1"
 	}
 	ew.Roles["S"] = w.Acct(signer)
@@ -85,15 +88,21 @@ func pceqBuild(seed int64, kind string) *pceqState {
 			panic("set-up tx failed: " + res.Log)
 		}
 	}
-	if kind != "noDeleg" && kind != "operator" {
-		// (also for "slashed")
+	if kind != "noDeleg" && kind != "operator" && kind != "operatorWd" {
+		// (also for "slashed", "vesting")
 		add(S, stakingtypes.NewMsgDelegate(S.Addr, w.Vals[0].ValAddr(), coin("1000000000000000000000")))
 		add(S, stakingtypes.NewMsgDelegate(S.Addr, w.Vals[1].ValAddr(), coin("300000000000000000000")))
 		add(S, stakingtypes.NewMsgUndelegate(S.Addr, w.Vals[0].ValAddr(), coin("5000000")))
 	}
 	add(T, stakingtypes.NewMsgDelegate(T.Addr, w.Vals[0].ValAddr(), coin("1000000000000000000000")))
-	if kind == "wdOther" {
+	if kind == "wdOther" || kind == "operatorWd" {
 		add(S, distrtypes.NewMsgSetWithdrawAddress(S.Addr, ew.Roles["W"].Addr))
+	}
+	if kind == "vesting" {
+		// T turns S into a clawback vesting account: 5000 ISLM on top of S's own (free) balance, nothing vested yet
+		a := sdk.NewCoins(coin("5000000000000000000000"))
+		add(T, vestingtypes.NewMsgConvertIntoVestingAccount(T.Addr, S.Addr, n.Time.Add(-20*time.Second),
+			sdkvesting.Periods{{Length: 30, Amount: a}}, sdkvesting.Periods{{Length: 100000, Amount: a}}, false, false, nil))
 	}
 	OpenLoopbackChannel(n)
 	if kind == "slashed" {
@@ -198,6 +207,16 @@ func (st *pceqState) amount(ctx sdk.Context, class string, v string) *big.Int {
 		return del.BigInt()
 	case "gtDeleg":
 		return del.AddRaw(1).BigInt()
+	case "eqFree", "gtFree":
+		// what a vesting account may bond: its balance minus the unvested coins
+		free := bal
+		if va, ok := app.AccountKeeper.GetAccount(ctx, st.S.Addr).(*vestingtypes.ClawbackVestingAccount); ok {
+			free = bal.Sub(va.GetVestingCoins(ctx.BlockTime()).AmountOf(utils.BaseDenom))
+		}
+		if class == "gtFree" {
+			free = free.AddRaw(1)
+		}
+		return free.BigInt()
 	case "eqBal":
 		return bal.BigInt()
 	case "gtBal":
@@ -244,6 +263,15 @@ func (st *pceqState) native(ctx sdk.Context, c pceqCase, amt *big.Int) (ok bool,
 		msgs = []sdk.Msg{&distrtypes.MsgSetWithdrawAddress{DelegatorAddress: S.Addr.String(), WithdrawAddress: st.wdTarget(c).String()}}
 	case "withdrawCommission":
 		msgs = []sdk.Msg{&distrtypes.MsgWithdrawValidatorCommission{ValidatorAddress: sdk.ValAddress(S.Addr).String()}}
+	case "createValidator":
+		pk := ed25519.GenPrivKeyFromSecret([]byte("hv-pceq-cons-key")).PubKey()
+		m, err := stakingtypes.NewMsgCreateValidator(sdk.ValAddress(S.Addr), pk, cn, stakingtypes.Description{Moniker: "s"},
+			stakingtypes.NewCommissionRates(sdkmath.LegacyNewDecWithPrec(5, 2), sdkmath.LegacyNewDecWithPrec(20, 2), sdkmath.LegacyNewDecWithPrec(1, 2)),
+			sdkmath.OneInt())
+		if err != nil {
+			return false, err.Error()
+		}
+		msgs = []sdk.Msg{m}
 	case "ibcTransfer":
 		msgs = []sdk.Msg{transfertypes.NewMsgTransfer("transfer", "channel-0", cn, S.Addr.String(), "haqq1receiveronotherside",
 			clienttypes.NewHeight(1, 1_000_000), 0, "")}
@@ -307,6 +335,13 @@ func (st *pceqState) precompile(ctx sdk.Context, c pceqCase, amt *big.Int) (ok b
 	case "withdrawCommission":
 		to = distrPC
 		data, err = distrABI.Pack("withdrawValidatorCommission", sdk.ValAddress(st.S.Addr).String())
+	case "createValidator":
+		pk := ed25519.GenPrivKeyFromSecret([]byte("hv-pceq-cons-key")).PubKey()
+		d16 := func(n int64) *big.Int { return new(big.Int).Mul(big.NewInt(n), new(big.Int).Exp(big.NewInt(10), big.NewInt(16), nil)) }
+		to = stakingPC
+		data, err = stakingABI.Pack("createValidator", stakingprecompile.Description{Moniker: "s"},
+			stakingprecompile.Commission{Rate: d16(5), MaxRate: d16(20), MaxChangeRate: d16(1)},
+			big.NewInt(1), who, sdk.ValAddress(st.S.Addr).String(), base64.StdEncoding.EncodeToString(pk.Bytes()), amt)
 	case "ibcTransfer":
 		to = ics20PC
 		data, err = ics20ABI.Pack("transfer", "transfer", "channel-0", "aISLM", amt, who, "haqq1receiveronotherside",
